@@ -212,7 +212,7 @@ def impl_predicate(c):
 def replay_dict(c, fails, out, extra=None):
     G = X.G
     d = {"kind": "property-fails-on-implementation",
-         "case": {k: c.get(k) for k in ("cell", "pbc", "pos", "cutoff", "api", "cutoff_kind", "history", "pbc_array")},
+         "case": {k: c.get(k) for k in ("cell", "pbc", "pos", "cutoff", "api", "cutoff_kind", "history", "pbc_array", "twin")},
          "units": "grid units of 2**-12 Angstrom",
          "call": "matid.geometry.%s(positions=pos/4096, cell=cell/4096, pbc=%s, cutoff=%s)" % (
              "get_distances" if c["api"] == "distances" else "get_displacement_tensor", list(c["pbc"]),
@@ -319,6 +319,7 @@ def run(ctx):
             # and after other library entry points ran on the structure and earlier results were overwritten by the caller
             c.setdefault("history", (c["api"] == "distances" and c["id"] % 2 == 0) or (c["api"] == "tensor" and c["id"] % 10 == 0))
             c.setdefault("pbc_array", c["api"] == "tensor" and c["id"] % 4 == 1)
+            c.setdefault("twin", c["api"] == "tensor" and c["id"] % 2 == 1)
         tb = time.time()
         impl, modes = run_impl(cases)
         state["t_impl"] += time.time() - tb
@@ -508,6 +509,8 @@ def replay(ctx, rep):
     c.setdefault("cutoff_kind", "replay")
     if c.get("history") is None:
         c["history"] = True
+    if c.get("twin") is None:
+        c["twin"] = True
     fails, out = impl_predicate(c)
     if fails:
         ctx.violation(replay_dict(c, fails, out), found_input=True)
